@@ -392,6 +392,9 @@ class World:
         self.modes = tuple(modes)
         self.fault_budget = fault_budget
         self.fault_kinds = ('eof', 'rst')
+        self.cut_points = 'boundaries'  # or 'all': cut after every possible number of further bytes
+        self.fault_conns = None  # restrict faults to these connection indices
+        self.closers = {}  # name -> callable starting an explicit close() (a fault-budget alternative)
         self.faults_used = 0
         self.horizon = horizon
         self.step_cap = step_cap
@@ -503,11 +506,25 @@ class World:
                         alt.append((('blk', d.name), lambda d=d: setattr(d, 'block_armed', True)))
         if self.faults_used < self.fault_budget:
             for c in self.conns:
+                if self.fault_conns is not None and c.idx not in self.fault_conns:
+                    continue
                 for d in c.dirs():
                     if d.dead or d.eof_done or not d.sink_alive():
                         continue
+                    if c.flavour == 'tcp':
+                        total = len(d.pending)
+                        if self.cut_points == 'all':
+                            ks = range(0, total + 1)
+                        else:
+                            n = d.next_frame_len() or 0
+                            ks = sorted({k for k in (0, 1, 2, 3, 4, 9, n - 1, n, n + 1, n + 3, n + 9, total - 1, total) if 0 <= k <= total})
+                    else:
+                        ks = range(0, len(d.msgs) + 1)
                     for kind in self.fault_kinds:
-                        alt.append((('cut', d.name, kind), lambda d=d, kind=kind: self._cut(d, kind)))
+                        for k in ks:
+                            alt.append((('cut', d.name, kind, k), lambda d=d, kind=kind, k=k: self._cut(d, kind, k)))
+            for name, fn in sorted(self.closers.items()):
+                alt.append((('close', name), lambda fn=fn: self._closer(fn)))
         if not ev and alt and not self.ended:
             # nothing left to do by default, but a fault could still strike here: make that a choice point
             ev = [(('end',), self._end)]
@@ -531,17 +548,55 @@ class World:
         self.loop.tick()
         self.logev(('t', round(self.loop.time(), 6)))
 
-    def _cut(self, d, kind):
+    def _closer(self, fn):
         self.faults_used += 1
+        fn()
+
+    def _cut(self, d, kind, k=0):
+        """Connection loss on direction d after exactly k more bytes (tcp) / messages (msg) were delivered."""
+        self.faults_used += 1
+        if d.conn.flavour == 'tcp':
+            if k:
+                d.deliver_bytes(k)
+        else:
+            for _ in range(k):
+                d.deliver_message()
+        d.pending.clear()
+        d.msgs.clear()
         if kind == 'eof':
-            d.pending.clear()
-            d.msgs.clear()
             d.deliver_eof()
             d.dead = True
-        else:
-            d.pending.clear()
-            d.msgs.clear()
+        elif kind == 'rst':
             d.deliver_error()
+        elif kind == 'mute':  # the direction silently swallows everything from now on (peer hung, no FIN/RST)
+            d.dead = True
+            d.eof_done = True
+            self.logev(('mute', d.dst))
+            self.logev(('mute', d.src))
+        else:  # 'wr': the receiver of d sees a reset and its own writes fail from now on
+            d.deliver_error()
+            rev = d.conn.s2c if d is d.conn.c2s else d.conn.c2s
+            rev.write_error = True
+            rev.pending.clear()
+            rev.msgs.clear()
+            rev.dead = True
+            if rev.block is not None and not rev.block.done():
+                rev.block.set_result(None)
+
+    def advance(self, seconds):
+        """Advance the virtual clock firing every timer on the way (used after faults: keepalive periods etc.)."""
+        loop = self.loop
+        target = loop.time() + seconds
+        while True:
+            t = loop.next_timer()
+            if t is None or t > target + 1e-12:
+                break
+            loop.advance_to(t)
+            self.logev(('t', round(loop.time(), 6)))
+            self.run_q()
+        loop.advance_to(target)
+        self.logev(('t', round(loop.time(), 6)))
+        self.run_q()
 
     # -- execution under a chooser -------------------------------------------------------------------------------
     def options(self):
